@@ -207,7 +207,9 @@ def qualify (nsPath pat : Bytes) : Bytes :=
 
 /-- `ACL.AllowOperation` for the harness's policies (every pattern grants every capability) -/
 def aclAllows (t : Tok) (reqNs rel : Bytes) (isList : Bool) : Bool :=
-  if t.isRoot then hasParent reqNs t.ns else
+  -- the root policy of namespace `t.ns`: the request's namespace lies at or below it, or (since the repair of F101)
+  -- the namespace-QUALIFIED path does — the test every other rule makes
+  if t.isRoot then hasParent reqNs t.ns || t.ns.isPrefixOf (reqNs ++ rel) else
   let path := reqNs ++ rel
   let pats := t.pats.map (qualify t.ns)
   pats.any fun p =>
